@@ -306,7 +306,9 @@ def rand_arglist(rng, sids, nest):
 def rand_call(rng, sids, depth=3, nest=0):
     sids[0] += 1
     sc = [[k, {'k': 'int', 'i': rng.randint(6, 9)}] for k in B.NAME_ORDER if rng.random() < 0.3]
-    return {'t': rand_value(rng), 'sc': sc, 'sid': sids[0], 'spec': rand_spec(rng, depth, sids, nest=nest)}
+    via = 'glommer' if rng.random() < 0.15 else 'glom'
+    return {'t': rand_value(rng), 'sc': [] if via == 'glommer' else sc, 'sid': sids[0],
+            'spec': rand_spec(rng, depth, sids, nest=nest), 'via': via}
 
 
 def rand_history(rng, length):
@@ -436,8 +438,10 @@ def canaries(rows):
         c['events'] = c['events'][:i_set + 1]
         c['events'][i_set]['h'] = 'bogus'
         c['canary'] = 'tc_set_value'
-        return [a, b, c]
-    return []
+        out.extend([a, b, c])
+        if len(out) >= 15:      # several candidates: a chosen call may lie outside the modelled fragment
+            break
+    return out
 
 
 def trace_validate(check, rows, label, chunk, module='Trace_C06'):
